@@ -131,6 +131,10 @@ def leaves(t, out=None):
     elif tag == "cond":
         for a in t[1:]:
             leaves(a, out)
+    elif tag == "shift":
+        out.add(t)
+        leaves(t[1], out)
+        leaves(t[2], out)
     return out
 
 
@@ -169,6 +173,9 @@ def subterms(t):
     elif tag == "cond":
         for a in t[1:]:
             yield from subterms(a)
+    elif tag == "shift":
+        yield from subterms(t[1])
+        yield from subterms(t[2])
 
 
 def tstr(t, depth=0):
@@ -215,6 +222,8 @@ def tstr(t, depth=0):
         return "phi(%s)" % ", ".join(tstr(a, d) for a in t[1:])
     if tag == "unit":
         return "()"
+    if tag == "shift":
+        return "prev(%s; first %s)" % (tstr(t[2], d), tstr(t[1], d))
     return str(t)
 
 
@@ -1185,9 +1194,40 @@ class FnAnalysis:
             lid = e.get("id")
 
             def pre(s0, itv=itv, lid=lid):
-                self.bind(s0, e["pat"], ("elem", itv, lid), e["iter"])
+                self.bind(s0, e["pat"], self.element_of(s0, itv, lid), e["iter"])
             outs.extend(self.loop_common(e, s, pre, iter_term=itv))
         return outs
+
+    def element_of(self, st, itv, lid):
+        """the value a `for` pattern is bound to; `base.map(|x| f(x))` yields f(element of base) when the closure is a literal that does not branch"""
+        v = itv
+        while isinstance(v, tuple) and v and v[0] == "mut":
+            v = v[1]
+        if isinstance(v, tuple) and v and v[0] == "call" and v[1].endswith("::map") and len(v[2]) == 2 and isinstance(v[2][1], tuple) and v[2][1][0] == "clos":
+            node = getattr(self, "clos_nodes", {}).get(v[2][1][1])
+            if node is not None and len(node["params"]) == 1:
+                inner = self.element_of(st, v[2][0], lid)
+                sub = st.fork()
+                saved_paths = self.paths
+                self.paths = []
+                try:
+                    self.bind(sub, node["params"][0], inner, None)
+                    outs = [(s, val) for s, val in self.eval(node["body"], sub) if s.ctrl is None]
+                    clean = not self.paths
+                finally:
+                    self.paths = saved_paths
+                if clean and len(outs) == 1:
+                    return outs[0][1]
+        if isinstance(v, tuple) and v and v[0] == "call" and v[1].endswith("::zip") and len(v[2]) == 2:
+            return ("tup", (self.element_of(st, v[2][0], lid), self.element_of(st, v[2][1], lid)))
+        if isinstance(v, tuple) and v and v[0] == "call" and v[1].endswith("::chain") and len(v[2]) == 2:
+            first = v[2][0]
+            while isinstance(first, tuple) and first and first[0] == "mut":
+                first = first[1]
+            if isinstance(first, tuple) and first[0] == "call" and first[1].endswith("::once") and len(first[2]) == 1:
+                # `once(c).chain(it)`: c on the first iteration, afterwards what `it` yielded one iteration earlier
+                return ("shift", first[2][0], self.element_of(st, v[2][1], lid))
+        return ("elem", itv, lid)
 
     def e_While(self, e, st):
         return self.loop_common(e, st, None, cond=e["c"], has_zero=False)
@@ -1424,6 +1464,11 @@ class FnAnalysis:
                     effects.append(("unknown", u))
         if ret is None and name == "len" and len(vals) == 1:
             ret = ("call", "len", (vals[0],), None)
+        if ret is None and name in ("as_slice", "as_mut_slice", "as_mut_vec", "deref", "deref_mut", "borrow", "as_ref") and len(vals) == 1 and \
+                ("Vec<" in tys[0] or tys[0].lstrip("&").replace("mut ", "").startswith("[")):
+            self.ev(st, "call", e, fn=fn, args=tuple(vals), arg_nodes=arg_nodes, recv=recv_node, ret=vals[0], effects=(), uid=None, tys=tys,
+                    argkeys=[frozenset() for _ in arg_nodes], pos_before={}, pos_after={}, direct=None, targs=e.get("targs"), resolved=e.get("resolved"))
+            return vals[0]                    # a view of the same sequence
         if ret is None and name == "first" and len(vals) == 1 and "slice" in fn:
             ret = ("idx", vals[0], C(0))        # Option payload level: `s.first()` is `s[0]` when it is Some
         if ret is None:
